@@ -968,10 +968,12 @@ func (s *server) MutateRows(req *btpb.MutateRowsRequest, stream btpb.Bigtable_Mu
 
 		code, msg := int32(codes.OK), ""
 		if err := applyMutations(tbl, r, entry.Mutations, now); err != nil {
+			// A failed entry must leave its row untouched.
 			code = int32(codes.Internal)
 			msg = err.Error()
+		} else {
+			tbl.updateRow(r)
 		}
-		tbl.updateRow(r)
 		res.Entries[i] = &btpb.MutateRowsResponse_Entry{
 			Index:  int64(i),
 			Status: &statpb.Status{Code: code, Message: msg},
